@@ -61,6 +61,20 @@ def run_case(case, workdir):
                     rec.fail("raised", sub, exc_text(val))
                 elif not bool(val):
                     rec.fail("rejected", sub, "bool(Taster) is False on a well-formed plotfile")
+    # the command line entry point: every flag combination must end normally on a well-formed plotfile
+    import amr_kitchen.taste.cli as tcli
+    from ..common import run_cli
+    for (bh, bs, bd, bc) in OPTS:
+        if bd and desc["payload"] == "hostile":
+            continue
+        for nofail in (False, True):
+            argv = ["taste", path, "-v", "0"] + ([] if bh else ["-nh"]) + ([] if bs else ["-ns"]) + (["-bd"] if bd else []) \
+                + (["-bc"] if bc else []) + (["-nf"] if nofail else []) + (["-l", str(ref.nlevels - 1)] if bc else [])
+            with vpool.controlled():
+                st, val = run_cli(tcli.main, argv)
+            rec.exe([dh, "cli", argv[2:]], nontrivial=True)
+            if st != "ok":
+                rec.fail("cli_rejected", {"argv": argv}, "%s %s" % (st, val))
     # every schedule of every pool call of the full validation (headers + shape + data + coordinates)
     if case.get("schedules"):
         def run(plan):
